@@ -71,8 +71,11 @@ def contracts():
         callbacks={"template_fn": "user_template_fn", "post_template_fn": "user_post_fn",
                    "self.template_override_funcs[name]": "user_override"},
         requires=["'Template' in ctx.NAMESPACE_DATA"],
-        track_log=True, log_names=["template_fn", "post_template_fn"],
+        track_log=True, log_names=["template_fn", "post_template_fn", "add_newline_to_expansion"],
         asserts={
+            # the automatic-newline rule is applied to the default expansion before the post hook sees it
+            "if post_template_fn is not None and t": ["logged('add_newline_to_expansion') == 1",
+                                                     "logged('post_template_fn') == 0"],
             # after template_fn, before the default expansion is chosen
             "if t is None:": ["logged('template_fn') <= 1",
                               "implies(template_fn is not None, logged('template_fn') == 1)",
@@ -80,7 +83,7 @@ def contracts():
                               "implies(logged('template_fn') == 1, same_object(call_arg('template_fn', 0, 1), ht))",
                               "logged('post_template_fn') == 0"],
             # after post_template_fn
-            "assert isinstance(t, str)": ["logged('post_template_fn') <= 1",
+            "assert isinstance(t, str)": ["logged('post_template_fn') <= 1", "logged('add_newline_to_expansion') == 1",
                                           "implies(post_template_fn is None, logged('post_template_fn') == 0)",
                                           "implies(logged('post_template_fn') == 1, "
                                           "same_object(call_arg('post_template_fn', 0, 1), ht))"],
